@@ -228,7 +228,7 @@ def run_tlaps(module, files, props):
     shutil.rmtree(d, ignore_errors=True)
     os.makedirs(d)
     for f in files:
-        shutil.copyfile(os.path.join(tlc.SPEC, f), os.path.join(d, f))
+        shutil.copyfile(os.path.join(tlc.SPEC, f), os.path.join(d, os.path.basename(f)))
     try:
         p = subprocess.run(["tlapm", "--cleanfp", module + ".tla"], cwd=d, stdout=subprocess.PIPE, stderr=subprocess.STDOUT, timeout=900)
         text = p.stdout.decode(errors="replace")
